@@ -787,6 +787,14 @@ func ruleGRDdescent(w *World, r *Report) {
 		return
 	}
 	fn := w.SSAFunc(fi.Obj)
+	if len(findInstrs(fn, callsTo(sl))) == 0 { // the descent may be a phase function of its own
+		for _, h := range w.extractedHelpers(fn) {
+			if len(findInstrs(h, callsTo(sl))) > 0 {
+				fn = h
+				break
+			}
+		}
+	}
 	layerCalls := findInstrs(fn, callsTo(sl))
 	levelOf := func(c *ssa.Call) (int64, bool) {
 		// receiver, query, entrypoint, k, level, ...
